@@ -98,3 +98,9 @@
            (forall ((i Int)) (! (=> (and (<= 0 i) (< i (vlen arg))) ((_ is VStr) (select (varr arg) i))) :pattern ((select (varr arg) i)))))
       (and (= t {{str:expref}}) ((_ is VExpRef) arg))
       (and (= t {{str:any}}) (not ((_ is VExpRef) arg)))))
+
+;; spec pureTree (n Node) -> Bool
+; an expression tree without function calls and expression references (the fragment of C01 C02 C07 C15)
+(define-fun-rec pureTree ((n Node)) Bool
+  (and ((_ is mkNode) n) (not (= (ntype n) {{ASTFunctionExpression}})) (not (= (ntype n) {{ASTExpRef}}))
+       (forall ((i Int)) (! (=> (and (<= 0 i) (< i (nkids n))) (pureTree (select (kids n) i))) :pattern ((select (kids n) i))))))
